@@ -498,6 +498,28 @@ def solve(M, b):
     key = ('linsolve', tuple(L(v).id for v in M.flat), tuple(L(v).id for v in b.flat))
     if key in c.memo:
         return c.memo[key].copy().view(SymArray)
+    if n <= c.memo.get('cramer_max', 0):
+        # closed form (Cramer) for small regular systems: the exact value numpy.linalg.solve approximates
+        def det(rows):
+            if len(rows) == 1:
+                return rows[0][0]
+            r = tm.ZERO
+            for j in range(len(rows)):
+                if rows[0][j] is tm.ZERO:
+                    continue
+                t = tm.mul(rows[0][j], det([row[:j] + row[j + 1:] for row in rows[1:]]))
+                r = tm.add(r, t) if j % 2 == 0 else tm.sub(r, t)
+            return r
+        rows = [[L(M[i, j]) for j in range(n)] for i in range(n)]
+        d = det(rows)
+        x = _np.empty(n, dtype=object)
+        for k in range(n):
+            rk = [[(L(b[i]) if j == k else rows[i][j]) for j in range(n)] for i in range(n)]
+            x[k] = P(tm.div(det(rk), d))
+        c.side.append(tm.ne(d, tm.ZERO))
+        c.note('numpy.linalg.solve(M,b) for n<=%d modelled by its closed form (Cramer), M regular' % c.memo['cramer_max'])
+        c.memo[key] = x
+        return x.copy().view(SymArray)
     x = _np.empty(n, dtype=object)
     for i in range(n):
         x[i] = P(c.fresh('lin'))
